@@ -10,7 +10,8 @@ explicit policy clauses of the statement are checked directly.
 import gc
 
 from traits.api import (Any, Constant, Event, HasPrivateTraits,
-                        HasStrictTraits, HasTraits, Int, List, Map, ReadOnly, Str,
+                        HasStrictTraits, HasTraits, Int, List, Map, Property, ReadOnly,
+                        Str,
                         TraitError, Undefined)
 
 LEVEL = "model_checking"
@@ -109,11 +110,18 @@ def events():
     evs += [("add_trait_list", "b"), ("get_items", "b"), ("set_items", "b")]
     # ... and a mapped instance trait a shadow "<name>_"
     evs += [("add_trait_map", "b"), ("get_shadow", "b"), ("set_shadow", "b")]
+    # ... and a definition without a handler object (a read-only, untyped
+    # Property)
+    evs += [("add_trait_prop", "b"), ("add_trait_prop", "m")]
     # the base class gains a wildcard its (already defined) subclass
     # declares itself: the subclass's own rule stays
     evs.append(("base_adds_wildcard",))
     evs.append(("define_sub",))
     return evs
+
+
+def _forty_two(self):
+    return 42
 
 
 class Side:
@@ -182,6 +190,10 @@ class Side:
                 o.add_trait(n, Map({"a": 1, "b": 2}))
                 self.inst[ev[1]] = True
                 return ("ok",)
+            if k == "add_trait_prop":
+                o.add_trait(n, Property(_forty_two))
+                self.inst[ev[1]] = True
+                return ("ok",)
             if k == "get_shadow":
                 v = getattr(o, n + "_")
                 return ("value", repr(v))
@@ -218,6 +230,8 @@ class Model:
         self.kind, self.name = kind, name
         self.inst = {"b": False, "s": False, "m": False}
         self.ro_written = {"b": False, "s": False, "m": False}
+        #: add_trait_prop found a stored value under the name
+        self.shadowed = {}
         self.has_sub = False
         #: the base instance touched the name before the subclass existed
         self.late = False
@@ -237,7 +251,7 @@ def enabled(model, ev):
         return model.has_sub and not getattr(model, "base_wild", False)
     if ev[1] == "s" and not model.has_sub:
         return False
-    if ev[0] in ("add_trait_list", "add_trait_map"):
+    if ev[0] in ("add_trait_list", "add_trait_map", "add_trait_prop"):
         return not model.inst[ev[1]]
     if ev[0] in ("get_items", "set_items", "get_shadow", "set_shadow"):
         return True
@@ -258,9 +272,32 @@ def check_policy(ctx, model, ev, out, bad):
         return
     if k in ("add_trait2", "add_trait_list", "get_items", "set_items",
              "base_adds_wildcard", "add_trait_map", "get_shadow",
-             "set_shadow"):
+             "set_shadow", "add_trait_prop"):
         return          # (decided by the twin comparison)
     how, f = model.gov(ev[1])
+    if k == "remove_trait":
+        # (enabled only while an instance trait exists)
+        if out != ("ok", True):
+            bad("remove-trait-result", "remove_trait of an existing instance "
+                "trait gave %r" % (out,))
+        return
+    if how == "instance" and f == "Prop" and model.shadowed.get(ev[1]):
+        # the name already had a stored value when the Property was added
+        if k == "get" and out != ("value", "42"):
+            bad("instance-property-shadowed", "an instance Property was "
+                "added for a name that already had a stored value; the name "
+                "still reads %r (the stored value), not the property's 42"
+                % (out,))
+        return
+    if how == "instance" and f == "Prop":
+        ctx.outcome("instance-trait-governed")
+        if k == "get" and out != ("value", "42"):
+            bad("instance-trait-not-governing", "an instance Property was "
+                "added but the name reads %r" % (out,))
+        if k == "set" and out[0] != "TraitError":
+            bad("instance-trait-not-governing", "a read-only instance "
+                "Property was added but %r was accepted" % (ev[2],))
+        return
     if how == "instance" and f in ("List", "Map"):
         if f == "Map" and k == "set":
             ctx.outcome("instance-trait-governed")
@@ -367,6 +404,8 @@ def run_history(ctx, kind, name, hist):
         if not enabled(model, ev):
             return None, None
         ctx.tr()
+        if ev[0] == "add_trait_prop":
+            model.shadowed[ev[1]] = name in real.obj(ev[1]).__dict__
         o1 = real.do(ev)
         o2 = twin.do(ev)
         if (ev[0] in ("get_items", "set_items") and
@@ -422,6 +461,8 @@ def run_history(ctx, kind, name, hist):
             model.inst[ev[1]] = "List"
         if ev[0] == "add_trait_map":
             model.inst[ev[1]] = "Map"
+        if ev[0] == "add_trait_prop":
+            model.inst[ev[1]] = "Prop"
         if ev[0] == "base_adds_wildcard":
             model.base_wild = True
         if ev[0] == "remove_trait":
@@ -443,6 +484,7 @@ def run_history(ctx, kind, name, hist):
            sorted(real.b.__dict__.items(), key=repr),
            sorted(real.s.__dict__.items(), key=repr) if real.s else None,
            model.inst["b"], model.inst["s"], model.inst["m"], model.has_sub,
+           sorted(model.shadowed.items()),
            sorted(real.m.__dict__.items(), key=repr),
            model.ro_written["b"], model.ro_written["s"],
            model.ro_written["m"], getattr(model, "base_wild", False),
